@@ -11,9 +11,10 @@
   c18.setitem  <self unit5> (B | U <unit5>) (- | <Err>)
   c18.iufunc   <fuel> (N | U <unit6>) <float kind> <float size> <c01.dispatch fields …> <out shape;kind;itemsize> <out writeable>
   c18.simplify <unit5>                      → <ok|err:Name> <n effects> <returns self 0|1> <coeff bits> <factors>
-  c18.copy.in_units <unit5> <kind> <size> (E <Err> | U <unit5>)            → <ok|err:Name> <n effects>
-  c18.copy.in_base  <system> <unit5>                                       → <ok|err:Name> <n effects>
-  c18.copy.to_equivalent <unit5> <kind> <size> (E <Err> | U <unit5>) <equiv> <kw,kw|>
+  c18.copy.in_units <Class.method> <unit5> <kind> <size> (E <Err> | U <unit5>)   → <ok|err:Name> <n effects>
+  c18.copy.in_base  <Class.method> <system> <unit5>
+  c18.copy.to_equivalent <Class.method> <unit5> <kind> <size> (E <Err> | U <unit5>) <equiv> <kw,kw|>
+  c18.copy.method <Class.method>       (effects = the regenerated self-writes of the method)
   c18.copy.ufunc <c01.dispatch fields …>   (out forced to none)           → <ok|err:Name> <n effects>
   c18.dump.order <routine>     c18.dump.writes <Class.method>     c18.dump.lists
 -/
@@ -178,26 +179,31 @@ def stepC18 (st : DriverState) (fields : List String) : Option String :=
     match r.result with
     | .ok (v, self) => some s!"ok\t{r.effects.length}\t{b01 self}\t{bitsStr v.expr.coeff}\t{Factors.str (UExpr.normF v.expr.factors)}"
     | .error e => some s!"err:{e.str}\t{r.effects.length}"
-  | "c18.copy.in_units" :: sc :: off :: dim :: co :: fac :: k :: sz :: rest => do
+  | "c18.copy.in_units" :: meth :: sc :: off :: dim :: co :: fac :: k :: sz :: rest => do
     let u ← parseUnitV sc off dim co fac
     let d ← C17Ops.parseDtype k sz
     let (tg, _) ← pTarget rest
-    let r := runSteps (inUnitsSteps N P st.pre lut em ⟨u, d, true⟩ tg)
+    let r := runSteps (copyingRoute C18.methodFacts meth (inUnitsSteps N P st.pre lut em ⟨u, d, true⟩ tg))
     some (shortLine r.effects.length r.result)
-  | ["c18.copy.in_base", sys, sc, off, dim, co, fac] => do
+  | ["c18.copy.in_base", meth, sys, sc, off, dim, co, fac] => do
     let S ← findSystem Float sys
     let u ← parseUnitV sc off dim co fac
-    let r := runSteps (inBaseSteps st.pre lut em S u)
+    let r := runSteps (copyingRoute C18.methodFacts meth (inBaseSteps st.pre lut em S u))
     some (shortLine r.effects.length r.result)
-  | "c18.copy.to_equivalent" :: sc :: off :: dim :: co :: fac :: k :: sz :: rest => do
+  | "c18.copy.to_equivalent" :: meth :: sc :: off :: dim :: co :: fac :: k :: sz :: rest => do
     let u ← parseUnitV sc off dim co fac
     let d ← C17Ops.parseDtype k sz
     let (tg, rest) ← pTarget rest
     match rest with
     | [eq, kw] =>
-      let r := runSteps (toEquivalentSteps N P st.pre lut em equivalences powRefuses ⟨u, d, true⟩ tg eq (pKw kw))
+      let r := runSteps (copyingRoute C18.methodFacts meth
+        (toEquivalentSteps N P st.pre lut em equivalences powRefuses ⟨u, d, true⟩ tg eq (pKw kw)))
       some (shortLine r.effects.length r.result)
     | _ => none
+  | ["c18.copy.method", meth] =>
+    -- any other documented-copying method: no modelled fallible step, the regenerated self-writes only
+    some (shortLine (runSteps (copyingRoute (K := Float) C18.methodFacts meth [])).effects.length
+      (runSteps (copyingRoute (K := Float) C18.methodFacts meth [])).result)
   | "c18.copy.ufunc" :: f :: m :: nin :: rest => do
     let m ← pMethod m
     let nin ← nin.toNat?
